@@ -15,11 +15,13 @@ EXPLANATION = (
     "Decides one structural clause of C16 only. The property speaks of *accepted* specifications; what makes a returned layout "
     "valid for every accepted input is (a) arithmetic (not decided) and (b) the refusals that reject everything the arithmetic "
     "cannot handle. R16.1 REF: every condition under which normalize_chunks, auto_chunks and blockdims_from_blockshape raise "
-    "(missing chunks, rank mismatch, malformed / negative / inconsistent byte strings, empty tuples, sizes that do not add up to "
-    "the shape, unknown sizes with 'auto', object dtypes, non-integer sizes: 17 reference fingerprints) is structurally unchanged; "
+    "(missing chunks, rank mismatch, malformed / negative / inconsistent byte strings, empty tuples, negative sizes, sizes that do not add up to "
+    "the shape, unknown sizes with 'auto', object dtypes, non-integer sizes: 18 reference fingerprints) is structurally unchanged; "
     "R16.2 PASS: every normal return of normalize_chunks is reached only through the empty-tuple refusal loop and through the "
     "'chunks do not add up to shape' validation (skipped only for the all-int fast path, whose layout is constructed from the shape "
-    "by blockdims_from_blockshape). The sums, the byte limit of 'auto' axes and the uniform-size clause are integer arithmetic and "
+    "by blockdims_from_blockshape); R16.3 PASS: every normal return also passes a refusal of negative sizes placed after the "
+    "-1 / None placeholder substitution (without it `(-2,)` was normalised to ((-1,),) and ((-1, 6),) accepted for an axis of 5 - "
+    "repaired in /repo). The sums, the byte limit of 'auto' axes and the uniform-size clause are integer arithmetic and "
     "are not decided."
 )
 ASSUMPTIONS = ["blockdims_from_blockshape builds a tiling of the shape from integer sizes (arithmetic, not decided)"]
@@ -78,12 +80,68 @@ def r16_2(ctx):
     return rr
 
 
-RULES = [r16_1, r16_2]
+def _neg_test(test):
+    """`X < 0` / `0 > X` / `X <= -1` on something other than the parsed byte-string value."""
+    for n in ast.walk(test):
+        if isinstance(n, ast.Compare) and len(n.ops) == 1:
+            l, op, r = n.left, n.ops[0], n.comparators[0]
+            if isinstance(op, (ast.Gt, ast.GtE)):
+                l, r, op = r, l, (ast.Lt() if isinstance(op, ast.Gt) else ast.LtE())
+            if isinstance(r, ast.UnaryOp) and isinstance(r.op, ast.USub) and isinstance(r.operand, ast.Constant):
+                rv = -r.operand.value
+            elif isinstance(r, ast.Constant):
+                rv = r.value
+            else:
+                continue
+            if ((isinstance(op, ast.Lt) and rv == 0) or (isinstance(op, ast.LtE) and rv == -1)) and "parsed" not in unparse(l):
+                return True
+    return False
+
+
+def _is_neg_refusal(n):
+    return isinstance(n, ast.If) and _neg_test(n.test) and any(isinstance(x, ast.Raise) for b in n.body for x in ast.walk(b))
+
+
+def r16_3(ctx):
+    rr = RuleResult("R16.3", "PASS", "every normal return of normalize_chunks passes through a refusal of negative sizes (after the -1 / None placeholders are substituted)", min_instances=1)
+    mod = ctx.repo.mod("dask_array._core_utils")
+    f = mod.functions.get("normalize_chunks")
+    need(f is not None, "dask_array/_core_utils.py::normalize_chunks")
+    cfg = cfg_of(ctx, f)
+
+    def refuses(n):
+        if _is_neg_refusal(n):
+            return True
+        # a module-local helper called as a statement whose body holds the refusal
+        if isinstance(n, (ast.Expr, ast.Assign)) and isinstance(n.value, ast.Call):
+            h = mod.functions.get(dotted(n.value.func) or "")
+            if h is not None and any(_is_neg_refusal(x) for x in body_walk(h.node)):
+                return True
+        return False
+
+    gates = [n for n in cfg.stmts() if refuses(n)]
+    rets = [r for r in cfg.returns if r.value is not None]
+    need(rets, "returns of normalize_chunks")
+    if not gates:
+        rr.inst(f.construct + "::negative-size refusal", present=False)
+        ctx.finding(rr, f.construct + "::negative-size refusal", "normalize_chunks has no refusal of negative chunk sizes: `(-2,)` on an axis of 5 is accepted and normalised to ((-1,),), and ((-1, 6),) is accepted because it happens to sum to the axis length", func=f)
+        return rr
+    for g in gates:
+        rr.inst(site(f, g)[:150], refusal=unparse(g.test)[:120] if isinstance(g, ast.If) else unparse(g)[:120])
+    for r in rets:
+        p = cfg.path_avoiding(r, blocked=lambda n: n in gates)
+        rr.inst(site(f, r)[:150], through_negative_refusal=p is None)
+        if p is not None:
+            ctx.finding(rr, site(f, r)[:150], "a return of normalize_chunks is reachable without passing the negative-size refusal: a layout with a negative block size can be accepted", func=f, node=r)
+    return rr
+
+
+RULES = [r16_1, r16_2, r16_3]
 
 LEVEL_TEXT = (
-    "Static decision of one clause of C16: invalid chunk specifications are refused (reference fingerprints of the 17 refusal "
+    "Static decision of one clause of C16: invalid chunk specifications are refused (reference fingerprints of the 18 refusal "
     "guards of normalize_chunks / auto_chunks / blockdims_from_blockshape) and every layout returned by normalize_chunks has passed "
-    "the empty-tuple refusal and the adds-up-to-shape validation (must-pass-through on the CFG). A dropped or weakened validation is "
+    "the empty-tuple refusal, the negative-size refusal and the adds-up-to-shape validation (must-pass-through on the CFG). A dropped or weakened validation is "
     "reported at its guard. The sums, the byte limit and the uniform-size clause are arithmetic and are not decided."
 )
 LEVEL_NOTE = "Trusted: CPython ast, sa.cfg, sa.refguards, reviewed reference table. A restructured guard needs the reference regenerated deliberately."
